@@ -7,32 +7,35 @@ Open Scope N_scope.
 (** a match decomposes the text into the literal segments (up to ASCII case / whitespace) with the
     captured texts between them: substituting the captures back into the pattern reproduces the matched part *)
 Theorem C07_wild_roundtrip : forall s0 rest anch t caps,
-  find_match s0 rest anch t = Some caps ->
-  exists pre m t', t = pre ++ m ++ t' /\ seg_eq s0 m = true /\ segs_match rest anch t' caps.
-Proof. exact find_match_sound. Qed.
+  find_match pchar_match s0 rest anch t = Some caps ->
+  exists pre m t', t = pre ++ m ++ t' /\ seg_eq pchar_match s0 m = true /\ segs_match pchar_match rest anch t' caps.
+Proof. exact (find_match_sound pchar_match). Qed.
 Print Assumptions C07_wild_roundtrip.
 
 (** ... and whenever such a decomposition exists the line matches *)
 Theorem C07_wild_complete : forall s0 rest anch t pre m t' caps,
-  t = pre ++ m ++ t' -> seg_eq s0 m = true -> segs_match rest anch t' caps ->
-  exists caps', find_match s0 rest anch t = Some caps'.
-Proof. exact find_match_complete. Qed.
+  t = pre ++ m ++ t' -> seg_eq pchar_match s0 m = true -> segs_match pchar_match rest anch t' caps ->
+  exists caps', find_match pchar_match s0 rest anch t = Some caps'.
+Proof. exact (find_match_complete pchar_match). Qed.
 Print Assumptions C07_wild_complete.
 
 (** leftmost start, shortest captures *)
 Theorem C07_wild_leftmost : forall s0 rest anch t caps,
-  find_match s0 rest anch t = Some caps ->
-  exists pre m t', t = pre ++ m ++ t' /\ seg_eq s0 m = true /\ segs_match rest anch t' caps /\
-    forall pre2 m2 t2 caps2, t = pre2 ++ m2 ++ t2 -> seg_eq s0 m2 = true -> segs_match rest anch t2 caps2 ->
+  find_match pchar_match s0 rest anch t = Some caps ->
+  exists pre m t', t = pre ++ m ++ t' /\ seg_eq pchar_match s0 m = true /\ segs_match pchar_match rest anch t' caps /\
+    forall pre2 m2 t2 caps2, t = pre2 ++ m2 ++ t2 -> seg_eq pchar_match s0 m2 = true ->
+      segs_match pchar_match rest anch t2 caps2 ->
       (length pre <= length pre2)%nat.
-Proof. exact find_match_leftmost. Qed.
+Proof. exact (find_match_leftmost pchar_match). Qed.
 Print Assumptions C07_wild_leftmost.
 
+(** (a capture may span line breaks, so the shortest is taken among all texts, not only newline-free ones) *)
 Theorem C07_wild_lazy : forall s rest anch t g caps,
-  match_segs (s :: rest) anch t = Some (g :: caps) ->
-  forall g2 m2 t2 caps2, t = g2 ++ m2 ++ t2 -> no_nl g2 -> seg_eq s m2 = true -> segs_match rest anch t2 caps2 ->
+  match_segs pchar_match (s :: rest) anch t = Some (g :: caps) ->
+  forall g2 m2 t2 caps2, t = g2 ++ m2 ++ t2 -> seg_eq pchar_match s m2 = true ->
+    segs_match pchar_match rest anch t2 caps2 ->
     (length g <= length g2)%nat.
-Proof. exact match_segs_lazy. Qed.
+Proof. exact (match_segs_lazy pchar_match). Qed.
 Print Assumptions C07_wild_lazy.
 
 (** one capture per wildcard; the field count is checked at compile time *)
